@@ -176,7 +176,8 @@ pub fn judge_session(site: &str, prog: &Prog, direct: &[Vec<Stmt>], replies: &[&
         for d in direct {
             s.enter(&render_stmts(d));
         }
-        render_impl(&s.take()).0
+        // (the request for a key is an event of the protocol, not output)
+        render_impl(&s.take()).0.replace("\u{1}INKEY\u{2}", "")
     });
     ctx.nontrivial(hash64(&exp));
     match r {
@@ -285,6 +286,11 @@ impl Sweep for Layout {
                     judge_session("after-INPUT", &empty, &[vec![pa.clone(), Stmt::Input(Some("q".into()), vec![LVal::Var("I".into())]), Stmt::Print(vec![PItem::E(var("I")), PItem::Semi]), probe()]], &["x", "5"], ctx);
                     // error, then the next line
                     judge_session("after-error", &empty, &[vec![pa.clone(), Stmt::Let(LVal::Var("Q%".into()), int(32767)), Stmt::Let(LVal::Var("Q%".into()), bin(crate::refmodel::value::BinOp::Add, var("Q%"), int(1)))], vec![probe()]], &[], ctx);
+                    // INKEY$ (no key waiting): the driver answers through enter(), nothing is echoed
+                    let inkey = Stmt::Let(LVal::Var("K$".into()), var("INKEY$"));
+                    judge_session("after-INKEY", &empty, &[vec![pa.clone(), inkey.clone(), probe()]], &[], ctx);
+                    let pk = Prog { lines: vec![Line { num: 10, stmts: vec![pa.clone(), inkey.clone()] }, Line { num: 20, stmts: vec![probe()] }] };
+                    judge_session("after-INKEY", &pk, &[vec![Stmt::Raw("RUN".into())]], &[], ctx);
                     // CLS and LIST
                     judge_session("after-CLS", &empty, &[vec![pa.clone(), Stmt::Cls, probe()]], &[], ctx);
                     judge_session("after-LIST", &p1, &[vec![pa.clone(), Stmt::List, probe()]], &[], ctx);
@@ -399,6 +405,20 @@ fn judge_number(v: &V, describe: &dyn Fn() -> String, ctx: &mut Ctx) {
                     "malformed"
                 };
                 ctx.violation_case(&format!("number-format/{}", class), why, Value::String(describe()));
+            }
+            // the notation does not depend on the sign: -x is written like x with a minus in front
+            let neg = match v {
+                V::Sng(n) if *n != 0.0 && n.is_finite() => Some(Val::Single(-*n)),
+                V::Dbl(n) if *n != 0.0 && n.is_finite() => Some(Val::Double(-*n)),
+                _ => None,
+            };
+            if let Some(nv) = neg {
+                if let Ok(t2) = guard(|| format!("{}", nv)) {
+                    let strip = |t: &str| t.trim_start_matches([' ', '-']).to_string();
+                    if strip(&text) != strip(&t2) {
+                        ctx.violation_case("number-format/notation-depends-on-the-sign", format!("{:?} but its negation {:?}", text, t2), Value::String(describe()));
+                    }
+                }
             }
         }
     }
